@@ -46,9 +46,9 @@ SERVER_VALUES = {
     "float": [5, 2.5, "1e3", "1_0.5", "nan", " 2.5", 1e400, True],
 }
 LIT = {
-    "int": dict(lo="2", hi="9", fb="5", oor="77", setv="6", setoor="88", wset="4", symdef="3"),
-    "hex": dict(lo="0x2", hi="0x9f", fb="0x10", oor="0xfff", setv="0x18", setoor="0xabc", wset="0x12", symdef="0x3"),
-    "float": dict(lo="0.5", hi="9.5", fb="1.5", oor="77.5", setv="3.25", setoor="1e9", wset="0.75", symdef="2.5"),
+    "int": dict(lo="2", hi="9", fb="5", oor="77", setv="6", setoor="88", wset="4", symdef="3", lo2="100", hi2="200", fb2="150"),
+    "hex": dict(lo="0x2", hi="0x9f", fb="0x10", oor="0xfff", setv="0x18", setoor="0xabc", wset="0x12", symdef="0x3", lo2="0x100", hi2="0x1ff", fb2="0x180"),
+    "float": dict(lo="0.5", hi="9.5", fb="1.5", oor="77.5", setv="3.25", setoor="1e9", wset="0.75", symdef="2.5", lo2="100.5", hi2="200.5", fb2="150.5"),
 }
 INT_RE = re.compile(r"[+-]?[0-9]+\Z")
 HEX_RE = re.compile(r"(0[xX])?[0-9a-fA-F]+\Z")
@@ -57,25 +57,56 @@ HEX_RE = re.compile(r"(0[xX])?[0-9a-fA-F]+\Z")
 def programs(tier: str) -> Iterator[Dict[str, Any]]:
     for t in ("int", "hex", "float"):
         lit = LIT[t]
-        for rng, dfl, ind, pc in itertools.product(("none", "lit", "zero", "cond", "sym"), ("fb", "none", "sym", "oor"), ("none", "set", "setoor", "wset", "wsetoor"), (False, True)):
+        combos = list(itertools.product(("none", "lit", "zero", "cond", "sym"), ("fb", "none", "sym", "oor"), ("none", "set", "setoor", "wset", "wsetoor"), (False, True)))
+        # upper bound taken from an option (with a value / possibly without one), and an option defined twice with a range per definition
+        combos += list(itertools.product(("symhi", "symhi_empty", "multi"), ("fb", "oor"), ("none", "set", "setoor", "wset"), (False,)))
+        for rng, dfl, ind, pc in combos:
             if tier == "quick" and pc and (rng == "sym" or dfl == "sym"):
                 continue
             T = Cfg("T", t, prompt="t")
             aux: Dict[str, Cfg] = {}
             dom: Dict[str, List[Optional[str]]] = {}
+            # the same ranges for the reference: [low, high, condition]; a bound is a literal or "@OPTION", a condition None or [OPTION, value]
+            ref_ranges: List[list] = []
+            T2: Optional[Cfg] = None
             if pc:
                 T.prompt_cond = S("V")
                 aux["V"] = Cfg("V", "bool", prompt="v", defaults=[(L("y"), None)])
                 dom["V"] = [None, "n"]
             if rng == "lit":
                 T.ranges.append((L(lit["lo"]), L(lit["hi"]), None))
+                ref_ranges.append([lit["lo"], lit["hi"], None])
+            elif rng == "symhi":
+                T.ranges.append((L(lit["lo"]), S("HI"), None))
+                aux["HI"] = Cfg("HI", t, prompt="hi", defaults=[(L(lit["hi"]), None)])
+                dom["HI"] = [None, lit["setv"]]
+                ref_ranges.append([lit["lo"], "@HI", None])
+            elif rng == "symhi_empty":
+                # the bound option has no default and is unavailable unless G: its value is then empty, which counts as 0
+                T.ranges.append((L(lit["lo"]), S("LIM"), None))
+                aux["G"] = Cfg("G", "bool", prompt="g")
+                aux["LIM"] = Cfg("LIM", t, prompt="lim", depends=[S("G")])
+                dom["G"] = [None, "y"]
+                dom["LIM"] = [None, lit["hi"]]
+                ref_ranges.append([lit["lo"], "@LIM", None])
+            elif rng == "multi":
+                T.prompt = "t low"
+                T.depends = [kgen.Not(S("F"))]
+                T.ranges.append((L(lit["lo"]), L(lit["hi"]), None))
+                T2 = Cfg("T", t, prompt="t high", depends=[S("F")], ranges=[(L(lit["lo2"]), L(lit["hi2"]), None)], defaults=[(L(lit["fb2"]), None)])
+                aux["F"] = Cfg("F", "bool", prompt="f")
+                dom["F"] = [None, "y"]
+                ref_ranges.append([lit["lo"], lit["hi"], ["F", "n"]])
+                ref_ranges.append([lit["lo2"], lit["hi2"], ["F", "y"]])
             elif rng == "zero":  # a range that contains 0 (the numeric value assumed when nothing has been parsed yet)
                 T.ranges.append((L({"int": "-5", "hex": "0x0", "float": "-1.0"}[t]), L({"int": "5", "hex": "0x1f", "float": "1.0"}[t]), None))
             elif rng == "cond":
+                ref_ranges.append([lit["lo"], lit["hi"], ["C", "y"]])
                 T.ranges.append((L(lit["lo"]), L(lit["hi"]), S("C")))
                 aux["C"] = Cfg("C", "bool", prompt="c")
                 dom["C"] = [None, "y"]
             elif rng == "sym":
+                ref_ranges.append(["@LO", lit["hi"], None])
                 T.ranges.append((S("LO"), L(lit["hi"]), None))
                 aux["LO"] = Cfg("LO", t, prompt="lo", defaults=[(L(lit["lo"]), None)])
                 dom["LO"] = [None, lit["setv"]]
@@ -99,8 +130,8 @@ def programs(tier: str) -> Iterator[Dict[str, Any]]:
                     src.wsets.append(("T", L(lit["wset"]), None))
                 aux["SRC"] = src
                 dom["SRC"] = [None, "y"]
-            kids = [aux[n] for n in ("V", "C") if n in aux] + [T] + [aux[n] for n in ("LO", "D", "SRC") if n in aux]
-            yield {"type": t, "shape": f"{rng}/{dfl}/{ind}/{'pc' if pc else 'plain'}", "files": kgen.render(Program(children=kids)), "dom": dom}
+            kids = [aux[n] for n in ("V", "C", "F", "G") if n in aux] + [T] + ([T2] if T2 else []) + [aux[n] for n in ("LO", "HI", "LIM", "D", "SRC") if n in aux]
+            yield {"type": t, "shape": f"{rng}/{dfl}/{ind}/{'pc' if pc else 'plain'}", "files": kgen.render(Program(children=kids)), "dom": dom, "ref_ranges": ref_ranges}
 
 
 def items(tier: str, seed: int):
@@ -198,6 +229,23 @@ def check_state(inst, item, label: str, r: common.Result, case: dict, icls: str,
                     r.violation({"kind": "outside_active_range", "source": "set" if s._has_active_indirect_set else ("user" if s._user_value is not None and s.visibility else "default"), **base_sig},
                                 f"{label} {s.name} = {v} outside the active range [{lo.str_value}, {hi.str_value}]", case)
                 break
+    # the same for T against the ranges as the PROGRAM states them (not as the implementation propagated them)
+    tv = vals.get("T", "")
+    if tv != "" and not wellformed(item["type"], tv):
+        t = item["type"]
+
+        def bound(b: str):
+            if b.startswith("@"):
+                bv = vals[b[1:]]
+                return num(t, bv) if bv != "" and not wellformed(t, bv) else 0  # a bound without a value counts as 0
+            return num(t, b)
+
+        for lo_, hi_, cond in item.get("ref_ranges", ()):
+            if cond is None or vals[cond[0]] == cond[1]:
+                lov, hiv = bound(lo_), bound(hi_)
+                if lov <= hiv and not (lov <= num(t, tv) <= hiv):
+                    r.violation({"kind": "outside_stated_range", **base_sig}, f"{label} T = {tv} outside the range the program states for this configuration [{lo_}, {hi_}] = [{lov}, {hiv}]", case)
+                break
     # writers
     d = impl.wdir()
     outs: Dict[str, str] = {}
@@ -290,7 +338,7 @@ def run_case(item, route: str, v: Any, names: List[str], assign: tuple, r: commo
     t = item["type"]
     files = item["files"]
     icls = input_class(t, v)
-    case = {"item": {k: item[k] for k in ("type", "shape", "files", "dom")}, "route": route, "value": v if not isinstance(v, float) or math.isfinite(v) else repr(v), "names": names, "assign": list(assign)}
+    case = {"item": {k: item[k] for k in ("type", "shape", "files", "dom", "ref_ranges")}, "route": route, "value": v if not isinstance(v, float) or math.isfinite(v) else repr(v), "names": names, "assign": list(assign)}
     label = f"[{t} {item['shape']} {route} T<-{v!r} {dict((n, a) for n, a in zip(names, assign) if a is not None)}]"
     inst = impl.Inst(files)
     for n, a in zip(names, assign):
@@ -322,7 +370,7 @@ def run_item(item) -> common.Result:
                 inst.k.syms[nm].set_value(a)
         r.evals += 1
         check_state(inst, item, f"[{t} {item['shape']} no-input {dict((n_, a) for n_, a in zip(names, assign) if a is not None)}]", r,
-                    {"item": {k: item[k] for k in ("type", "shape", "files", "dom")}, "route": None, "value": None, "names": names, "assign": list(assign)}, "none", "none")
+                    {"item": {k: item[k] for k in ("type", "shape", "files", "dom", "ref_ranges")}, "route": None, "value": None, "names": names, "assign": list(assign)}, "none", "none")
         for v in ALPHA[t]:
             for route in ("set_value", "sdkconfig"):
                 run_case(item, route, v, names, assign, r)
